@@ -96,8 +96,12 @@ Proof.
   apply find_some in F. destruct F as [Hin He]. apply N.eqb_eq in He. subst tx. apply I2, Hin.
 Qed.
 
-Lemma find_vip_in s v e : find_vip s v = Some e -> In e (vip s).
-Proof. unfold find_vip. intros H. apply find_some in H. tauto. Qed.
+Lemma find_vip_in k s v e : find_vip k s v = Some e -> In e (vip s).
+Proof.
+  unfold find_vip, find_vip_raw. destruct (find (fun e0 => N.eqb (vc e0) v) (vip s)) as [e0|] eqn:F; [|discriminate].
+  destruct (vip_expiry k && (vexp e0 <=? now s)%Z); [discriminate|]. intros H; inversion H; subst.
+  apply find_some in F. tauto.
+Qed.
 
 Lemma is_approved_in s tx : is_approved s tx = true -> In tx (approved s).
 Proof. unfold is_approved. rewrite existsb_exists. intros [x [Hx E]]. apply N.eqb_eq in E. now subst. Qed.
@@ -109,7 +113,7 @@ Ltac break_step :=
   | |- context [match ?x with VGood _ => _ | VBad => _ end] => destruct x
   | |- context [match ?x with TCode _ _ => _ | TBad => _ end] => destruct x
   | |- context [match ?x with BCode _ _ => _ | BBad => _ end] => destruct x
-  | |- context [match find_vip ?s ?v with _ => _ end] => destruct (find_vip s v) eqn:?
+  | |- context [match find_vip ?k ?s ?v with _ => _ end] => destruct (find_vip k s v) eqn:?
   | |- context [match tx_user ?s ?v with _ => _ end] => destruct (tx_user s v) eqn:?
   | |- context [match chal ?s ?v with _ => _ end] => destruct (chal s v) eqn:?
   | |- context [match boot ?s ?v with _ => _ end] => destruct (boot s v) eqn:?
@@ -283,11 +287,11 @@ Proof.
       * destruct (I4 tx' Htx) as [u [t [H1 H2]]]. exists u, t. split; [exact H1|now right].
   - (* Poll *)
     destruct (auth k s cert cs any_mask) as [[u l]|] eqn:HA; [|exact HI].
-    destruct (find_vip s v) as [e|] eqn:Hv; [|exact HI]. rewrite Hk. cbn [andb].
+    destruct (find_vip k s v) as [e|] eqn:Hv; [|exact HI]. rewrite Hk. cbn [andb].
     destruct (negb (N.eqb (vuser e) u)) eqn:Hne; [exact HI|].
     destruct (is_approved s (vtx e)) eqn:Ha; [|exact HI].
     apply negb_false_iff, N.eqb_eq in Hne. pose proof HI as [I1 [I2 [I3 I4]]].
-    rewrite (I3 e (find_vip_in _ _ _ Hv)), Hne.
+    rewrite (I3 e (find_vip_in _ _ _ _ Hv)), Hne.
     destruct (upgrade k s u cs (add l F_VIP)) as [s2 out] eqn:HU. sset.
     match goal with |- Inv (set_ghost _ (?x :: _) _) => up_inv k s [x] Hsel Hu HI Hc end.
   - (* Totp *)
@@ -635,7 +639,7 @@ Qed.
 
 (* ---------------------------------------------------------------- answers about somebody else *)
 (* whom the environment's positive answer carried by the request is about *)
-Definition about (s : st) (o : op) : option N :=
+Definition about (k : config) (s : st) (o : op) : option N :=
   match o with
   | VipOtp _ (VGood owner) => Some owner
   | Totp _ (TCode owner _) => Some owner
@@ -643,7 +647,7 @@ Definition about (s : st) (o : op) : option N :=
   | U2fFinish _ a => Some (a_owner a)
   | WaFinish _ a => Some (a_owner a)
   | SendDoc _ tk => match nth_error (tokens s) tk with Some t => Some (towner t) | None => None end
-  | Poll _ v => match find_vip s v with Some e => tx_user s (vtx e) | None => None end
+  | Poll _ v => match find_vip k s v with Some e => tx_user s (vtx e) | None => None end
   | _ => None
   end.
 
@@ -658,7 +662,7 @@ Definition requester (k : config) (s : st) (cert : option N) (o : op) : option N
 
 Lemma cross_user_refused k cert fault s o u u' :
   poll_checks_user k = true -> Inv s ->
-  about s o = Some u -> requester k s cert o = Some u' -> u <> u' -> step_req k cert fault s o = (s, None).
+  about k s o = Some u -> requester k s cert o = Some u' -> u <> u' -> step_req k cert fault s o = (s, None).
 Proof.
   intros Hk HI Ha Hr Hne.
   assert (Hneb : forall x y : N, x = u -> y = u' -> N.eqb x y = false).
@@ -669,8 +673,8 @@ Proof.
     destruct code; [|discriminate]. inversion Ha; subst u. rewrite (Hneb owner w) by reflexivity. reflexivity.
   - (* Poll *)
     destruct (auth k s cert cs any_mask) as [[w l]|]; [|discriminate]. inversion Hr; subst u'.
-    destruct (find_vip s v) as [e|] eqn:Hv; [|discriminate].
-    destruct HI as [_ [_ [I3 _]]]. rewrite (I3 e (find_vip_in _ _ _ Hv)) in Ha. inversion Ha; subst u.
+    destruct (find_vip k s v) as [e|] eqn:Hv; [|discriminate].
+    destruct HI as [_ [_ [I3 _]]]. rewrite (I3 e (find_vip_in _ _ _ _ Hv)) in Ha. inversion Ha; subst u.
     rewrite Hk, (Hneb (vuser e) w) by reflexivity. reflexivity.
   - (* Totp *)
     destruct (auth k s cert cs any_mask) as [[w l]|]; [|discriminate]. inversion Hr; subst u'.
@@ -717,13 +721,17 @@ Definition expired (k : config) (s : st) (cert : option N) (o : op) : bool :=
       | None => false
       end
   | SendDoc _ tk => match nth_error (tokens s) tk with Some t => (texp t <=? now s)%Z | None => false end
+  | Poll _ v => match find_vip_raw s v with Some e => (vexp e <=? now s)%Z | None => false end
   | _ => false
   end.
 
 Lemma expired_refused k cert fault s o :
-  chal_expiry k = true -> expired k s cert o = true -> step_req k cert fault s o = (s, None).
+  chal_expiry k = true -> vip_expiry k = true -> expired k s cert o = true -> step_req k cert fault s o = (s, None).
 Proof.
-  intros Hk He. destruct o; try discriminate; cbn [expired] in He; cbn [step_req].
+  intros Hk Hv He. destruct o; try discriminate; cbn [expired] in He; cbn [step_req].
+  - (* Poll *)
+    destruct (auth k s cert cs any_mask) as [[w l]|]; [|reflexivity].
+    unfold find_vip. destruct (find_vip_raw s v) as [e|]; [|discriminate]. rewrite Hv, He. reflexivity.
   - destruct code; [|discriminate]. destruct (auth k s cert cs any_mask) as [[w l]|]; [|reflexivity].
     apply Z.ltb_lt in He. replace (totp_step (now s) - 1 <=? stp)%Z with false by (symmetry; apply Z.leb_gt; lia).
     rewrite andb_false_r. reflexivity.
@@ -771,7 +779,7 @@ Qed.
 Definition dev_all : devices := {| has_totp := true; has_u2f := true; has_wa := true; has_profile := true |}.
 Definition cfg_with (poll mono expi del : bool) : config :=
   {| devs := fun _ => dev_all; webui := 2 ^ F_U2F; cookie_life := 57600; sel_last := true; upg_last := true;
-     poll_checks_user := poll;
+     vip_life := 120; vip_expiry := true; poll_checks_user := poll;
      totp_monotone := mono; chal_expiry := expi; chal_delete_wa := del; upgrade_checks_owner := true |}.
 
 (* user 2 polls with the push cookie of user 1's approved transaction *)
@@ -817,11 +825,11 @@ Qed.
 Definition dev_none : devices := {| has_totp := false; has_u2f := false; has_wa := false; has_profile := true |}.
 Definition cfg_old_upgrade : config :=
   {| devs := fun _ => dev_none; webui := 2 ^ F_U2F; cookie_life := 57600; sel_last := true; upg_last := true;
-     poll_checks_user := true;
+     vip_life := 120; vip_expiry := true; poll_checks_user := true;
      totp_monotone := true; chal_expiry := true; chal_delete_wa := true; upgrade_checks_owner := false |}.
 Definition cfg_new_upgrade : config :=
   {| devs := fun _ => dev_none; webui := 2 ^ F_U2F; cookie_life := 57600; sel_last := true; upg_last := true;
-     poll_checks_user := true;
+     vip_life := 120; vip_expiry := true; poll_checks_user := true;
      totp_monotone := true; chal_expiry := true; chal_delete_wa := true; upgrade_checks_owner := true |}.
 Definition w_cert : list op :=
   [Login 2 true; IssueOtp 1 3600; Req (Some 1%N) false (Bootstrap [0%nat] (BCode 1 0))].
@@ -844,7 +852,7 @@ Qed.
    bit although TOTP was never verified during it *)
 Definition cfg_first_cookie (lst : bool) : config :=
   {| devs := fun _ => dev_all; webui := 2 ^ F_U2F; cookie_life := 57600; sel_last := true; upg_last := lst;
-     poll_checks_user := true;
+     vip_life := 120; vip_expiry := true; poll_checks_user := true;
      totp_monotone := true; chal_expiry := true; chal_delete_wa := true; upgrade_checks_owner := true |}.
 Definition w_first : list op :=
   [Tick 3000; Login 1 true; Totp [0%nat] (TCode 1 100); Tick 3600; Login 1 true;
@@ -864,6 +872,17 @@ Proof.
   - eexists. split; vm_compute; reflexivity.
 Qed.
 
+(* a push transaction polled five minutes after it was started (lifetime: two minutes) *)
+Definition cfg_vip_expiry (b : bool) : config :=
+  {| devs := fun _ => dev_all; webui := 2 ^ F_U2F; cookie_life := 57600; sel_last := true; upg_last := true;
+     vip_life := 120; vip_expiry := b; poll_checks_user := true;
+     totp_monotone := true; chal_expiry := true; chal_delete_wa := true; upgrade_checks_owner := true |}.
+Definition w_vip_exp : list op := [Login 1 true; PushStart [0%nat] 7; Approve 0; Tick 300; Poll [0%nat] 7].
+Lemma old_vip_expiry :
+  nth 4 (snd (run (cfg_vip_expiry false) init w_vip_exp)) None <> None /\
+  nth 4 (snd (run (cfg_vip_expiry true) init w_vip_exp)) None = None.
+Proof. split; [vm_compute; discriminate|vm_compute; reflexivity]. Qed.
+
 (* the ghost record of a presented certificate is invisible to the handlers *)
 Lemma auth_present k s c cert cs m : auth k (present_cert s c) cert cs m = auth k s cert cs m.
 Proof.
@@ -874,5 +893,5 @@ Qed.
 Lemma requester_present k s c cert o : requester k (present_cert s c) cert o = requester k s cert o.
 Proof. destruct o; cbn [requester]; rewrite ?auth_present; reflexivity. Qed.
 
-Lemma about_present s c o : about (present_cert s c) o = about s o.
+Lemma about_present k s c o : about k (present_cert s c) o = about k s o.
 Proof. destruct c; reflexivity. Qed.
